@@ -1,5 +1,6 @@
 import Toxi.Driver.E1
 import Toxi.Driver.E2
+import Toxi.Driver.E4
 /-
 Model driver: reads one protocol line per operation on stdin, answers one line on stdout.
 First argument selects the engine adapter.  Core Lean only (compiled as a lean_exe).
@@ -36,5 +37,6 @@ def main (args : List String) : IO UInt32 := do
   let hout ← IO.getStdout
   match args with
   | ["e1"] => loopR hin hout E1.init E1.step E1.init; return 0
+  | ["e4"] => loopR hin hout E4.init E4.step E4.init; return 0
   | ["e2"] => loopR hin hout E2.init E2.step E2.init; return 0
   | _ => IO.eprintln "usage: driver e1|..."; return 2
